@@ -1,0 +1,31 @@
+//go:build verif
+
+package verifapi
+
+import "github.com/deepteams/webp/internal/container"
+
+type (
+	ContainerParser   = container.Parser
+	ContainerFeatures = container.Features
+	ContainerFrame    = container.FrameInfo
+	ContainerChunk    = container.Chunk
+)
+
+// NewContainerParser is container.NewParser.
+func NewContainerParser(data []byte) (*container.Parser, error) { return container.NewParser(data) }
+
+// ContainerErrors lists the sentinel errors of package container by name.
+var ContainerErrors = []struct {
+	Name string
+	Err  error
+}{
+	{"truncated", container.ErrTruncated},
+	{"invalidRIFF", container.ErrInvalidRIFF},
+	{"invalidWebP", container.ErrInvalidWebP},
+	{"tooLarge", container.ErrTooLarge},
+	{"invalidVP8X", container.ErrInvalidVP8X},
+	{"invalidFlags", container.ErrInvalidFlags},
+	{"unsupported", container.ErrUnsupported},
+	{"invalidImage", container.ErrInvalidImage},
+	{"invalidChunk", container.ErrInvalidChunk},
+}
